@@ -890,7 +890,10 @@ impl Rig {
                 };
                 verif::trace::emit(json!({"e": "OwnCallDone", "kind": kind, "tag": st["tag"], "ok": ok, "panicked": panicked}));
             }
-            "sleep" => std::thread::sleep(Duration::from_millis(st["ms"].as_u64().unwrap_or(1))),
+            "sleep" => std::thread::sleep(match st["us"].as_u64() {
+                Some(us) => Duration::from_micros(us),
+                None => Duration::from_millis(st["ms"].as_u64().unwrap_or(1)),
+            }),
             "mark" => {
                 verif::trace::emit(json!({"e": "Mark", "tag": st["tag"]}));
             }
